@@ -86,7 +86,7 @@ def generate(rng, tier, idx):
         opts['watermark'] = rng.choice([0, 100, 100000])
     return {'prop': ID, 'order_key': '%016x' % rng.getrandbits(64), 'tree': g['tree'], 'manifests': g['manifests'],
             'tz': rng.choice(TZS), 'epoch_ns': rng.choice(EPOCHS) * 10**9 + rng.choice([0, 300_000_000, 999_000_000]),
-            'rounds': rounds, 'opts': opts, 'ticks': rng.choice(['mixed', 'mixed', 'micro'])}
+            'rounds': rounds, 'opts': opts, 'ticks': rng.choice(['mixed', 'mixed', 'micro']), 'create0': rng.random() < 0.25}
 
 
 def read_manifests(root):
@@ -215,7 +215,26 @@ def execute(sc):
             # round 0: both get a TIMESTAMP
             opi = 0
             for root in (A, B):
-                r, ss = upd(root, ['-t', '-f'], opi)
+                if sc.get('create0'):
+                    # the tree gets its first TIMESTAMP from `gemato create --timestamp` on a tree without Manifests
+                    for d_, dn_, fn_ in os.walk(root):
+                        for n_ in fn_:
+                            if n_ == 'Manifest' or n_.startswith('Manifest.'):
+                                _o['os.unlink'](os.path.join(d_, n_))
+                    state['scan_start'] = None
+                    with seam:
+                        seam.begin_op(opi)
+                        c0 = run_cli(['create', '-t'] + base_args + [root], tz=tz)
+                    r, ss = cli_as_call(c0), state['scan_start']
+                    ts0 = top_timestamp(root)
+                    if r[0] == 'ok' and ts0 is not None and ss is not None and int(ts0.timestamp()) * 10**9 > ss:
+                        violations.append(viol('incr.timestamp-after-scan-start',
+                                               'create --timestamp: TIMESTAMP %s is later than the simulated clock when scanning started (%s)' % (
+                                                   ts0.isoformat(), datetime.datetime.fromtimestamp(ss / 1e9, datetime.timezone.utc).isoformat()),
+                                               sig='create'))
+                    counters['first_timestamp_from_create'] = 1
+                else:
+                    r, ss = upd(root, ['-t', '-f'], opi)
                 opi += 1
                 if r[0] == 'INTERNAL':
                     violations.append(viol('I-internal', 'internal error escaped: %s: %s' % (r[1], r[2]), sig=r[1]))
